@@ -262,6 +262,9 @@ def h_replay_handler(X):
     method = X.choose("method", ["GET", "POST"])
     with_old_response = X.boolean("recorded_response")
     mode = X.choose("mode", [None, "upstream:http://proxy.test:3128"])
+    # the user (an intercept filter such as ~s) pauses the replayed flow in its response hook: the replay is not finished
+    # before the flow is resumed, so replay() -- which playback() awaits before taking the next queued flow -- must not return
+    pause = what == "respond" and X.boolean("intercepted_in_response_hook")
     opts = _replay_opts(mode)
     f = tflow.tflow(resp=with_old_response)
     f.live = False
@@ -278,6 +281,8 @@ def h_replay_handler(X):
                     data.response = http.Response.make(200, b"canned")
                 else:
                     data.kill()
+            if pause and hook.name == "response":
+                data.intercept()
 
     class _Master:
         addons = _Addons()
@@ -289,8 +294,19 @@ def h_replay_handler(X):
     async def main():
         f.response = None
         h = clientplayback.ReplayHandler(f, opts)
+        task = asyncio.ensure_future(h.replay())
+        if pause:
+            for _ in range(500):
+                if f.intercepted or task.done():
+                    break
+                await asyncio.sleep(0.01)
+            result["intercepted"] = f.intercepted
+            for _ in range(20):
+                await asyncio.sleep(0.005)
+            result["done_while_paused"] = task.done()
+            f.resume()
         try:
-            await asyncio.wait_for(h.replay(), 5)
+            await asyncio.wait_for(task, 5)
             result["done"] = True
         except asyncio.TimeoutError:
             result["done"] = False
@@ -303,6 +319,12 @@ def h_replay_handler(X):
         else:
             clientplayback.ctx.master = saved
     X.reach("ran")
+    if pause:
+        X.check(result.get("intercepted"), "C53/replay-handler/response-hook-not-reached", f"hooks fired: {hooks}")
+        X.check(not result.get("done_while_paused"), f"C53/replay-handler/completes-while-intercepted/in-{where}",
+                "ReplayHandler.replay() returned (playback() would start the next queued flow) while the replayed flow was still "
+                f"intercepted in its response hook and had not been resumed; hooks fired: {hooks}")
+        X.reach("paused-in-response-hook")
     X.check(result.get("done"), f"C53/replay-handler/never-completes/{what}-in-{where}",
             f"ReplayHandler.replay() did not complete within 5 s after the addon chose to {what} in {where}; hooks fired: {hooks}")
     X.check(f.response is not None or f.error is not None, f"C53/replay-handler/no-outcome/{what}-in-{where}", f"hooks {hooks}")
@@ -332,9 +354,9 @@ def obligations(tier):
              stubs=["ReplayHandler.replay -> harness-completed awaitable", "asyncio running-loop pointer set to a non-running loop"]),
     ]
     obs.append(Symx("replay-handler-completes", h_replay_handler,
-                    bounds="real ReplayHandler.replay under a real asyncio loop: addon {responds, kills} in {requestheaders, request} x GET/POST x flow recorded with/without response x {direct, upstream} mode (no server connection is ever opened)",
+                    bounds="real ReplayHandler.replay under a real asyncio loop: addon {responds, kills} in {requestheaders, request} x GET/POST x flow recorded with/without response x {direct, upstream} mode x {flow runs through, flow intercepted in its response hook and resumed by the harness} (no server connection is ever opened)",
                     encoded=ENCODED + ["mitmproxy.addons.clientplayback:ReplayHandler.handle_hook", "mitmproxy.addons.clientplayback:ReplayHandler.replay"],
-                    must_reach=["ran", "completed-without-server"], stubs=["ctx.master.addons.handle_lifecycle -> harness addon"]))
+                    must_reach=["ran", "completed-without-server", "paused-in-response-hook"], stubs=["ctx.master.addons.handle_lifecycle -> harness addon"]))
     if tier != "quick":
         obs.append(Symx("replay-history-6", lambda X: h_history(X, OPS_SMALL, 6),
                         bounds=f"every history of <= 6 steps over {OPS_SMALL}",
